@@ -20,3 +20,4 @@ import json,sys
 m=json.load(open('/verif/MANIFEST.json')); m['hooks']['source_commits']=json.loads(sys.argv[1]); json.dump(m,open('/verif/MANIFEST.json','w'),indent=1)
 PY
 echo "synced; hook commits: $commits"
+./bin/govc snapshot-locals >/dev/null 2>&1 || true   # rename-robustness snapshot of local variable names
